@@ -21,8 +21,23 @@ for line in sys.stdin:
 '''
 
 
-def run_native(so, inputs, timeout_per_input=10.0, len_div=1, extra=()):
-    """inputs: list of bytes.  Returns list of dict(code, digest) | dict(abort=True, stderr=..) | dict(timeout=True)."""
+def run_native(so, inputs, timeout_per_input=10.0, len_div=1, extra=(), each=False):
+    """inputs: list of bytes.  Returns list of dict(code, digest) | dict(abort=True, stderr=..) | dict(timeout=True).
+    each=True: one helper process per input, each under timeout_per_input (for inputs suspected not to return)."""
+    if each:
+        out = []
+        for x in inputs:
+            p = subprocess.Popen([sys.executable, "-c", HELPER, so, str(len_div)] + [str(v) for v in extra], stdin=subprocess.PIPE,
+                                 stdout=subprocess.PIPE, stderr=subprocess.PIPE, text=True)
+            try:
+                so_, se_ = p.communicate(json.dumps(list(x)) + "\n", timeout=timeout_per_input)
+                lines = [l for l in so_.split("\n") if l.startswith("{")]
+                out.append(json.loads(lines[0]) if lines else {"abort": True, "stderr": se_[-600:], "returncode": p.returncode})
+            except subprocess.TimeoutExpired:
+                p.kill()
+                p.communicate()
+                out.append({"timeout": True})
+        return out
     out = [None] * len(inputs)
     i = 0
     while i < len(inputs):
